@@ -1,14 +1,13 @@
-(** C14 — zone maps: min/max pruning never claims "no match" when a match exists (outside the
-    finding classes K4 / K5).
+(** C14 — zone maps: min/max pruning never claims "no match" when a match exists.
 
     Invariant of a property column: every stored value is *covered* by the zone map entry:
     a null is counted, a non-null value is not below the recorded minimum and not above the
     recorded maximum in the sense of [cmp_zone] (the comparison the implementation uses, which is
-    partial and goes through [i64 as f64] for Int/Float pairs).  The invariant holds in every
-    reachable state because "less than" of [cmp_zone] is transitive (ProofsRound.v). *)
+    partial: values of different kinds, and NaN, are incomparable).  The invariant holds in every
+    reachable state because "less than" of [cmp_zone] is transitive (ProofsCmp.v). *)
 From Coq Require Import ZArith Lia List Bool.
 Import ListNotations.
-From GV Require Import Lpg.Model Lpg.Classes Lpg.ProofsBase Lpg.ProofsRound.
+From GV Require Import Lpg.Model Lpg.Classes Lpg.ProofsBase Lpg.ProofsRound Lpg.ProofsCmp.
 Open Scope Z_scope.
 
 (** * covering *)
@@ -21,11 +20,11 @@ Definition covers (z : zone) (x : value) : Prop :=
        /\ (exists mx, z_max z = Some mx /\ cmp_zone x mx <> Some Gt).
 
 Lemma zone_wf_insert z v : zone_wf z -> zone_wf (zone_insert z v).
-Proof. unfold zone_wf, zone_insert. intros H. destruct (is_null v); cbn [z_nulls z_rows]; lia. Qed.
+Proof. unfold zone_wf, zone_insert, zone_insert_g. intros H. destruct (is_null v); cbn [z_nulls z_rows]; lia. Qed.
 
 Lemma covers_insert_new z v : zone_wf z -> covers (zone_insert z v) v.
 Proof.
-  unfold zone_wf, covers, zone_insert. intros W. destruct (is_null v) eqn:N; cbn [z_nulls z_rows z_min z_max]; [lia|].
+  unfold zone_wf, covers, zone_insert, zone_insert_g. intros W. destruct (is_null v) eqn:N; cbn [z_nulls z_rows z_min z_max]; [lia|].
   split; [lia|]. destruct (cmp_zone_irrefl v) as [I1 I2]. split.
   - destruct (z_min z) as [cur|]; [|eexists; split; [reflexivity|exact I1]].
     destruct (cmp_zone v cur) as [[]|] eqn:E; eexists; (split; [reflexivity|]); try exact I1; rewrite E; discriminate.
@@ -35,7 +34,7 @@ Qed.
 
 Lemma covers_insert_old z v x : zone_wf z -> covers z x -> covers (zone_insert z v) x.
 Proof.
-  unfold zone_wf, covers, zone_insert. intros W. destruct (is_null x) eqn:Nx.
+  unfold zone_wf, covers, zone_insert, zone_insert_g. intros W. destruct (is_null x) eqn:Nx.
   - destruct (is_null v); cbn [z_nulls]; lia.
   - intros (C & (mn & Emn & Hmn) & (mx & Emx & Hmx)). destruct (is_null v) eqn:Nv; cbn [z_nulls z_rows z_min z_max].
     + split; [lia|]. split; eexists; split; eassumption.
@@ -111,9 +110,9 @@ Proof.
   - unfold do_remove_node_prop. psimpl. split; [apply PsInv_remove; exact N|exact E].
   - unfold do_set_edge_prop. psimpl. split; [exact N|apply PsInv_set; exact E].
   - unfold do_remove_edge_prop. psimpl. split; [exact N|apply PsInv_remove; exact E].
-  - unfold do_add_label. destruct (node_live s n); [|exact Z]. destruct (get_or_create (lab_names s) l).
+  - unfold do_add_label, do_add_label_pre. destruct (node_live s n); [|exact Z]. destruct (get_or_create (lab_names s) l).
     destruct (mem z (match zget (node_labels s) n with Some x => x | None => [] end)); psimpl; exact Z.
-  - unfold do_remove_label. destruct (node_live s n); [|exact Z]. destruct (find_pos l (lab_names s) 0); [|exact Z].
+  - unfold do_remove_label, do_remove_label_pre. destruct (node_live s n); [|exact Z]. destruct (find_pos l (lab_names s) 0); [|exact Z].
     destruct (zget (node_labels s) n); [|exact Z]. destruct (mem z l0); psimpl; exact Z.
   - unfold do_create_index. destruct (zget (pidx s) key); psimpl; exact Z.
   - unfold do_drop_index. destruct (zget (pidx s) key); psimpl; exact Z.
@@ -144,64 +143,6 @@ Proof.
   assert (existsb f l = true) by (apply existsb_exists; exists x; auto). congruence.
 Qed.
 
-(** what "outside K4" gives: no big integer, or no float, among the values involved *)
-Definition round_ok (l : list value) : Prop :=
-  (forall v, In v l -> is_big_int v = false) \/ (forall v, In v l -> is_float v = false).
-
-Lemma round_ok_of_class c o q : (o = OpLt \/ o = OpGt) -> k_zone_round_col c o q = false -> round_ok (q :: col_values c).
-Proof.
-  intros Ho H. assert (H' : existsb is_big_int (q :: col_values c) && existsb is_float (q :: col_values c) = false)
-    by (destruct Ho as [-> | ->]; exact H).
-  apply andb_false_iff in H'. destruct H' as [H'|H']; [left|right]; apply existsb_false_in; exact H'.
-Qed.
-
-Lemma round_ok_sub l l' : round_ok l -> (forall v, In v l' -> In v l) -> round_ok l'.
-Proof. intros [H|H] S; [left|right]; intros v Hv; apply H, S, Hv. Qed.
-
-Lemma not_big_round i : is_big_int (VInt i) = false -> round53 i = i.
-Proof.
-  cbn [is_big_int]. intros H. apply Z.leb_gt in H. apply round53_small.
-  change (2 ^ 53) with 9007199254740992. exact H.
-Qed.
-
-(** the strict comparisons: the bound compares Equal to the query value although a stored value is
-    strictly on the matching side -- impossible outside K4 *)
-Lemma strict_eq_contra_lt mn x q :
-  cmp_zone mn q = Some Eq -> cmp_range x q = Some Lt -> cmp_zone x mn <> Some Lt -> round_ok [q; x; mn] -> False.
-Proof.
-  pose proof scale_pos as SP. intros E R N OK. revert E R N.
-  destruct x, q; cbn [cmp_range]; try (intros ? ?; discriminate); destruct mn; cbn [cmp_zone]; try (intros ?; discriminate);
-    unfold cmp_int_f64, cmp_f64_int, f64_cmp;
-    repeat match goal with |- context [f64_num ?x] => destruct (f64_num x) eqn:? end; intros E R N; try discriminate E; try discriminate R.
-  - destruct b, b0, b1; cbn [bool_cmp] in R, E, N; try discriminate; congruence.
-  - zcmp. subst. apply N. f_equal. exact R.
-  - zcmp. destruct OK as [OK|OK].
-    + rewrite (not_big_round i) in N by (apply OK; cbn; auto). rewrite (not_big_round i0) in E by (apply OK; cbn; auto).
-      apply N. zcmp. nia.
-    + specialize (OK (VFloat bits)). cbn in OK. discriminate OK. auto.
-  - zcmp. apply N. zcmp. lia.
-  - zcmp. apply N. zcmp. lia.
-  - injection E as E. apply lex_cmp_eq in E. subst. apply N. exact R.
-Qed.
-
-Lemma strict_eq_contra_gt mx x q :
-  cmp_zone mx q = Some Eq -> cmp_range x q = Some Gt -> cmp_zone x mx <> Some Gt -> round_ok [q; x; mx] -> False.
-Proof.
-  pose proof scale_pos as SP. intros E R N OK. revert E R N.
-  destruct x, q; cbn [cmp_range]; try (intros ? ?; discriminate); destruct mx; cbn [cmp_zone]; try (intros ?; discriminate);
-    unfold cmp_int_f64, cmp_f64_int, f64_cmp;
-    repeat match goal with |- context [f64_num ?x] => destruct (f64_num x) eqn:? end; intros E R N; try discriminate E; try discriminate R.
-  - destruct b, b0, b1; cbn [bool_cmp] in R, E, N; try discriminate; congruence.
-  - zcmp. subst. apply N. f_equal. apply Z.compare_gt_iff. exact R.
-  - zcmp. destruct OK as [OK|OK].
-    + rewrite (not_big_round i) in N by (apply OK; cbn; auto). rewrite (not_big_round i0) in E by (apply OK; cbn; auto).
-      apply N. zcmp. nia.
-    + specialize (OK (VFloat bits)). cbn in OK. discriminate OK. auto.
-  - zcmp. apply N. zcmp. lia.
-  - zcmp. apply N. zcmp. lia.
-  - injection E as E. apply lex_cmp_eq in E. subst. apply N. exact R.
-Qed.
-
 Lemma cmp_range_nonnull x q c : cmp_range x q = Some c -> is_null x = false.
 Proof. destruct x; cbn; try discriminate; reflexivity. Qed.
 
@@ -209,14 +150,13 @@ Proof. destruct x; cbn; try discriminate; reflexivity. Qed.
 Lemma zone_lt_sound z x q incl :
   covers z x ->
   (cmp_range x q = Some Lt \/ (incl = true /\ cmp_range x q = Some Eq)) ->
-  (incl = false -> forall mn, z_min z = Some mn -> round_ok [q; x; mn]) ->
   zone_lt z q incl = true.
 Proof.
-  intros C R OK. assert (NN : is_null x = false) by (destruct R as [R|[_ R]]; eapply cmp_range_nonnull; exact R).
+  intros C R. assert (NN : is_null x = false) by (destruct R as [R|[_ R]]; eapply cmp_range_nonnull; exact R).
   unfold covers in C. rewrite NN in C. destruct C as (_ & (mn & Emn & Hmn) & _).
-  unfold zone_lt. rewrite Emn. destruct (cmp_zone mn q) as [[]|] eqn:E; try reflexivity.
+  unfold zone_lt, zone_lt_g. rewrite Emn. destruct (cmp_zone mn q) as [[]|] eqn:E; try reflexivity.
   - (* Eq *) destruct incl; [reflexivity|]. exfalso. destruct R as [R|[R _]]; [|discriminate R].
-    eapply strict_eq_contra_lt; try eassumption. apply OK; [reflexivity|exact Emn].
+    eapply strict_eq_contra_lt; eassumption.
   - (* Gt: the minimum is above the query value *)
     exfalso. apply cmp_zone_gt_lt in E. destruct R as [R|[_ R]].
     + apply Hmn. eapply cmp_zone_lt_trans; [apply cmp_range_zone; exact R|exact E].
@@ -227,14 +167,13 @@ Qed.
 Lemma zone_gt_sound z x q incl :
   covers z x ->
   (cmp_range x q = Some Gt \/ (incl = true /\ cmp_range x q = Some Eq)) ->
-  (incl = false -> forall mx, z_max z = Some mx -> round_ok [q; x; mx]) ->
   zone_gt z q incl = true.
 Proof.
-  intros C R OK. assert (NN : is_null x = false) by (destruct R as [R|[_ R]]; eapply cmp_range_nonnull; exact R).
+  intros C R. assert (NN : is_null x = false) by (destruct R as [R|[_ R]]; eapply cmp_range_nonnull; exact R).
   unfold covers in C. rewrite NN in C. destruct C as (_ & _ & (mx & Emx & Hmx)).
-  unfold zone_gt. rewrite Emx. destruct (cmp_zone mx q) as [[]|] eqn:E; try reflexivity.
+  unfold zone_gt, zone_gt_g. rewrite Emx. destruct (cmp_zone mx q) as [[]|] eqn:E; try reflexivity.
   - destruct incl; [reflexivity|]. exfalso. destruct R as [R|[R _]]; [|discriminate R].
-    eapply strict_eq_contra_gt; try eassumption. apply OK; [reflexivity|exact Emx].
+    eapply strict_eq_contra_gt; eassumption.
   - exfalso. assert (E' : cmp_zone q mx = Some Gt) by (apply cmp_zone_gt_lt; exact E). destruct R as [R|[_ R]].
     + apply Hmx. eapply cmp_zone_gt_trans; [apply cmp_range_zone; exact R|exact E'].
     + apply Hmx. rewrite (cmp_range_eq_congr x q mx R). exact E'.
@@ -275,7 +214,7 @@ Proof. destruct x, q; cbn [value_ieee_eqb is_null]; try discriminate; reflexivit
 (** might_contain_equal *)
 Lemma zone_eq_sound z x q : covers z x -> value_ieee_eqb x q = true -> zone_eq z q = true.
 Proof.
-  intros C H. unfold zone_eq, covers in *. rewrite (ieee_eq_null x q H) in C. destruct (is_null q).
+  intros C H. unfold zone_eq, zone_eq_g, covers in *. rewrite (ieee_eq_null x q H) in C. destruct (is_null q).
   - apply Z.ltb_lt. exact C.
   - destruct C as (C & (mn & Emn & Hmn) & (mx & Emx & Hmx)).
     assert (A : zone_all_null z = false).
@@ -285,88 +224,27 @@ Proof.
       destruct (cmp_zone x mx) as [[]|]; try reflexivity; exfalso; apply Hmx; reflexivity.
 Qed.
 
-(** * inequality pruning (outside K5; query values of type Float64: see [zone_ne_sound_float]) *)
-
-Definition ne_ok (q : value) (l : list value) : Prop := forall v, In v l -> odd_for_ne q v = false.
-
-Lemma ne_ok_tag q v : odd_for_ne q v = false -> is_null v = false -> vtag v = vtag q.
+(** * the column-level theorem: no class, no exception *)
+Lemma col_might_match_sound c o q n x :
+  ColInv c -> In (n, x) (c_vals c) -> sat o x q = true -> col_might_match c o q = true.
 Proof.
-  unfold odd_for_ne. intros H N. rewrite N in H. cbn [negb andb] in H. apply orb_false_iff in H. destruct H as [H _].
-  apply negb_false_iff in H. apply Z.eqb_eq in H. exact H.
-Qed.
-
-Lemma cmp_some_nonnull a b c : cmp_zone a b = Some c -> is_null a = false.
-Proof. destruct a; cbn; try discriminate; reflexivity. Qed.
-
-Lemma zone_ne_sound_nonfloat z x q :
-  covers z x -> is_null x = false -> value_ieee_eqb x q = false -> is_float q = false ->
-  (forall mn mx, z_min z = Some mn -> z_max z = Some mx -> ne_ok q [x; mn; mx]) ->
-  match z_min z, z_max z with
-  | Some mn, Some mx => negb (match cmp_zone mn q, cmp_zone mx q with Some Eq, Some Eq => true | _, _ => false end)
-  | _, _ => true
-  end = true.
-Proof.
-  intros C NN NE NF OK. unfold covers in C. rewrite NN in C. destruct C as (_ & (mn & Emn & Hmn) & (mx & Emx & Hmx)).
-  rewrite Emn, Emx. specialize (OK mn mx Emn Emx).
-  destruct (cmp_zone mn q) as [[]|] eqn:E1; try reflexivity. destruct (cmp_zone mx q) as [[]|] eqn:E2; try reflexivity.
-  exfalso.
-  assert (Tx : vtag x = vtag q) by (apply ne_ok_tag; [apply OK; cbn; auto|exact NN]).
-  assert (Tn : vtag mn = vtag q) by (apply ne_ok_tag; [apply OK; cbn; auto|eapply cmp_some_nonnull; exact E1]).
-  assert (Tm : vtag mx = vtag q) by (apply ne_ok_tag; [apply OK; cbn; auto|eapply cmp_some_nonnull; exact E2]).
-  destruct q; cbn [is_float] in NF; try discriminate NF;
-    destruct mn; cbn [vtag] in Tn; try discriminate Tn; cbn [cmp_zone] in E1; try discriminate E1;
-    destruct mx; cbn [vtag] in Tm; try discriminate Tm; cbn [cmp_zone] in E2; try discriminate E2;
-    destruct x; cbn [vtag] in Tx; try discriminate Tx; cbn [cmp_zone value_ieee_eqb] in Hmn, Hmx, NE.
-  - destruct b, b0, b1, b2; cbn in *; try discriminate; try (apply Hmn; reflexivity); try (apply Hmx; reflexivity).
-  - zcmp. subst. apply Z.eqb_neq in NE. destruct (Z.compare_spec i2 i) as [EE|LL|GG]; [apply NE; exact EE|apply Hmn; reflexivity|apply Hmx; reflexivity].
-  - injection E1 as E1. injection E2 as E2. apply lex_cmp_eq in E1. apply lex_cmp_eq in E2. subst.
-    destruct (lex_cmp s2 s) eqn:L; [|apply Hmn; reflexivity|apply Hmx; reflexivity].
-    apply lex_cmp_eq in L. subst. assert (T : zlist_eqb s s = true) by (apply zlist_eqb_eq; reflexivity). congruence.
-Qed.
-
-(** * the column-level theorem *)
-
-Lemma In_col_values_stored c n x : In (n, x) (c_vals c) -> In x (col_values c).
-Proof. intros H. unfold col_values. apply in_or_app. left. apply in_map_iff. exists (n, x). split; [reflexivity|exact H]. Qed.
-Lemma In_col_values_min c mn : z_min (c_zone c) = Some mn -> In mn (col_values c).
-Proof. intros H. unfold col_values. apply in_or_app. right. apply in_or_app. left. rewrite H. cbn. auto. Qed.
-Lemma In_col_values_max c mx : z_max (c_zone c) = Some mx -> In mx (col_values c).
-Proof. intros H. unfold col_values. apply in_or_app. right. apply in_or_app. right. rewrite H. cbn. auto. Qed.
-
-Lemma col_might_match_pre_sound c o q n x :
-  ColInv c -> In (n, x) (c_vals c) -> sat o x q = true ->
-  k_zone_round_col c o q = false -> k_zone_ne_col c o q = false -> (o = OpNe -> is_float q = false) ->
-  col_might_match_pre c o q = true.
-Proof.
-  intros [W C] Hin S K4 K5 NF. pose proof (C n x Hin) as Cx. unfold col_might_match_pre. destruct (c_dirty c); [reflexivity|].
-  assert (SUB : forall b, z_min (c_zone c) = Some b \/ z_max (c_zone c) = Some b ->
-                          forall v, In v [q; x; b] -> In v (q :: col_values c)).
-  { intros b Hb v [<-|[<-|[<-|[]]]]; [left; reflexivity|right; eapply In_col_values_stored; exact Hin|].
-    right. destruct Hb as [Hb|Hb]; [apply In_col_values_min|apply In_col_values_max]; exact Hb. }
+  intros [W C] Hin S. pose proof (C n x Hin) as Cx. unfold col_might_match, col_might_match_g. destruct (c_dirty c); [reflexivity|].
   destruct o; cbn [sat] in S.
   - eapply zone_eq_sound; eassumption.
-  - apply andb_true_iff in S. destruct S as [S1 S2]. apply negb_true_iff in S1, S2.
-    apply zone_ne_sound_nonfloat with (x := x); try assumption; [apply NF; reflexivity|].
-    intros mn mx Emn Emx v Hv. cbn [k_zone_ne_col] in K5. apply (existsb_false_in _ _ K5).
-    destruct Hv as [<-|[<-|[<-|[]]]]; [eapply In_col_values_stored; exact Hin|apply In_col_values_min; exact Emn|apply In_col_values_max; exact Emx].
-  - apply zone_lt_sound with (x := x); [exact Cx|left; destruct (cmp_range x q) as [[]|]; try discriminate S; reflexivity|].
-    intros _ mn Emn. eapply round_ok_sub; [apply (round_ok_of_class c OpLt q); [left; reflexivity|exact K4]|]. apply SUB. left. exact Emn.
-  - apply zone_lt_sound with (x := x); [exact Cx| |intros F; discriminate F].
+  - reflexivity.
+  - apply (zone_lt_sound _ x); [exact Cx|left; destruct (cmp_range x q) as [[]|]; try discriminate S; reflexivity].
+  - apply (zone_lt_sound _ x); [exact Cx|].
     destruct (cmp_range x q) as [[]|]; try discriminate S; [right; split; reflexivity|left; reflexivity].
-  - apply zone_gt_sound with (x := x); [exact Cx|left; destruct (cmp_range x q) as [[]|]; try discriminate S; reflexivity|].
-    intros _ mx Emx. eapply round_ok_sub; [apply (round_ok_of_class c OpGt q); [right; reflexivity|exact K4]|]. apply SUB. right. exact Emx.
-  - apply zone_gt_sound with (x := x); [exact Cx| |intros F; discriminate F].
+  - apply (zone_gt_sound _ x); [exact Cx|left; destruct (cmp_range x q) as [[]|]; try discriminate S; reflexivity].
+  - apply (zone_gt_sound _ x); [exact Cx|].
     destruct (cmp_range x q) as [[]|]; try discriminate S; [right; split; reflexivity|left; reflexivity].
 Qed.
 
-Lemma ps_might_match_pre_sound_nf p key o q n x :
-  PsInv p -> ps_get p n key = Some x -> sat o x q = true ->
-  ps_zone_class p key o q = false -> (o = OpNe -> is_float q = false) ->
-  ps_might_match_pre p key o q = true.
+Lemma ps_might_match_sound p key o q n x :
+  PsInv p -> ps_get p n key = Some x -> sat o x q = true -> ps_might_match p key o q = true.
 Proof.
-  intros P G S K NF. destruct (ps_get_covers p n key x P G) as (c & E & CI & Hin & _).
-  unfold ps_might_match_pre, ps_zone_class in *. rewrite E in *. apply orb_false_iff in K. destruct K as [K4 K5].
-  eapply col_might_match_pre_sound; eassumption.
+  intros P G S. destruct (ps_get_covers p n key x P G) as (c & E & CI & Hin & _).
+  unfold ps_might_match. rewrite E. eapply col_might_match_sound; eassumption.
 Qed.
 
 (** * range lookups *)
@@ -382,25 +260,13 @@ Qed.
 
 Lemma zone_range_sound c n x lo hi li hi_i :
   ColInv c -> In (n, x) (c_vals c) -> value_in_range x lo hi li hi_i = true ->
-  k_range_round_col c lo hi li hi_i = false ->
   zone_range (c_zone c) lo hi li hi_i = true.
 Proof.
-  intros [W C] Hin V K. pose proof (C n x Hin) as Cx. apply value_in_range_inv in V. destruct V as [V1 V2].
-  unfold k_range_round_col in K. apply orb_false_iff in K. destruct K as [K1 K2].
-  assert (SUB : forall q b, z_min (c_zone c) = Some b \/ z_max (c_zone c) = Some b ->
-                            forall v, In v [q; x; b] -> In v (q :: col_values c)).
-  { intros q b Hb v [<-|[<-|[<-|[]]]]; [left; reflexivity|right; eapply In_col_values_stored; exact Hin|].
-    right. destruct Hb as [Hb|Hb]; [apply In_col_values_min|apply In_col_values_max]; exact Hb. }
+  intros [W C] Hin V. pose proof (C n x Hin) as Cx. apply value_in_range_inv in V. destruct V as [V1 V2].
   assert (HI : match hi with Some h => zone_lt (c_zone c) h hi_i | None => true end = true).
-  { destruct hi as [h|]; [|reflexivity]. apply zone_lt_sound with (x := x); [exact Cx|apply V2; reflexivity|].
-    intros -> mn Emn. cbn [negb andb] in K2.
-    eapply round_ok_sub; [apply (round_ok_of_class c OpLt h); [left; reflexivity|exact K2]|]. apply SUB. left. exact Emn. }
-  unfold zone_range. destruct lo as [l|]; [|exact HI].
-  assert (LO : zone_gt (c_zone c) l li = true).
-  { apply zone_gt_sound with (x := x); [exact Cx|apply V1; reflexivity|].
-    intros -> mx Emx. cbn [negb andb] in K1.
-    eapply round_ok_sub; [apply (round_ok_of_class c OpGt l); [right; reflexivity|exact K1]|]. apply SUB. right. exact Emx. }
-  rewrite LO. exact HI.
+  { destruct hi as [h|]; [|reflexivity]. apply (zone_lt_sound _ x); [exact Cx|apply V2; reflexivity]. }
+  unfold zone_range, zone_range_g. fold zone_lt zone_gt. destruct lo as [l|]; [|exact HI].
+  rewrite (zone_gt_sound _ x l li Cx (V1 l eq_refl)). exact HI.
 Qed.
 
 Lemma filter_nil_all {A} (f : A -> bool) l : (forall a, In a l -> f a = false) -> filter f l = [].
@@ -410,210 +276,30 @@ Proof.
 Qed.
 
 Lemma find_in_range_sound s key lo hi li hi_i :
-  ZInv s -> ps_range_class (nprops s) key lo hi li hi_i = false ->
-  find_in_range s key lo hi li hi_i = scan_in_range s key lo hi li hi_i.
+  ZInv s -> find_in_range s key lo hi li hi_i = scan_in_range s key lo hi li hi_i.
 Proof.
-  intros [P _] K. unfold find_in_range. destruct (ps_might_match_range (nprops s) key lo hi li hi_i) eqn:M; [reflexivity|].
+  intros [P _]. unfold find_in_range. destruct (ps_might_match_range (nprops s) key lo hi li hi_i) eqn:M; [reflexivity|].
   symmetry. unfold scan_in_range. apply filter_nil_all. intros n _.
   destruct (ps_get (nprops s) n key) as [x|] eqn:G; [|reflexivity].
   destruct (value_in_range x lo hi li hi_i) eqn:V; [|reflexivity]. exfalso.
   destruct (ps_get_covers _ n key x P G) as (c & E & CI & Hin & _).
-  unfold ps_might_match_range, ps_range_class in *. rewrite E in *.
-  rewrite (zone_range_sound c n x lo hi li hi_i CI Hin V K) in M. discriminate M.
+  unfold ps_might_match_range in M. rewrite E in M.
+  rewrite (zone_range_sound c n x lo hi li hi_i CI Hin V) in M. discriminate M.
 Qed.
 
 (** * the theorems over all histories *)
-Lemma might_match_pre_sound_nf_l b ops (node : bool) key o q :
+Lemma might_match_sound_l b ops (node : bool) key o q :
   let s := run (init b) ops in
   let p := if node then nprops s else eprops s in
-  ps_zone_class p key o q = false -> (o = OpNe -> is_float q = false) ->
-  ps_might_match_pre p key o q = false -> forall n x, ps_get p n key = Some x -> sat o x q = false.
+  ps_might_match p key o q = false -> forall n x, ps_get p n key = Some x -> sat o x q = false.
 Proof.
-  cbv zeta. intros K NF M n x G. destruct (sat o x q) eqn:S; [|reflexivity]. exfalso.
+  cbv zeta. intros M n x G. destruct (sat o x q) eqn:S; [|reflexivity]. exfalso.
   destruct (ZInv_run b ops) as [PN PE].
   assert (P : PsInv (if node then nprops (run (init b) ops) else eprops (run (init b) ops))) by (destruct node; assumption).
-  rewrite (ps_might_match_pre_sound_nf _ key o q n x P G S K NF) in M. discriminate M.
+  rewrite (ps_might_match_sound _ key o q n x P G S) in M. discriminate M.
 Qed.
 
 Lemma range_sound_l b ops key lo hi li hi_i :
   let s := run (init b) ops in
-  ps_range_class (nprops s) key lo hi li hi_i = false ->
   find_in_range s key lo hi li hi_i = scan_in_range s key lo hi li hi_i.
-Proof. cbv zeta. intros K. apply find_in_range_sound; [apply ZInv_run|exact K]. Qed.
-
-(** * <> pruning with a Float64 query value
-
-    Needs that floats are 64-bit patterns: equal exact values then mean the same pattern or the
-    two zeros (ProofsFloat.v).  The well-formedness of the stored values is an invariant of
-    histories whose Set*Prop values are well-formed. *)
-From GV Require Import Lpg.ProofsFloat.
-
-Definition ColWf (c : column) : Prop := forall id x, In (id, x) (c_vals c) -> value_wf x.
-Definition PsWf (p : pstore) : Prop := forall k c, In (k, c) p -> ColWf c.
-Definition WInv (s : state) : Prop := PsWf (nprops s) /\ PsWf (eprops s).
-
-Lemma ColWf_set c id v : value_wf v -> ColWf c -> ColWf (col_set c id v).
-Proof. intros V C k x H. cbn [col_set c_vals] in H. apply In_zset in H. destruct H as [[_ ->]|H]; [exact V|eapply C; exact H]. Qed.
-Lemma ColWf_remove c id : ColWf c -> ColWf (col_remove c id).
-Proof.
-  intros C. unfold col_remove. destruct (zget (c_vals c) id); [|exact C].
-  intros k x H. cbn [c_vals] in H. apply In_zdel in H. destruct H as [H _]. eapply C. exact H.
-Qed.
-Lemma PsWf_set p id key v : value_wf v -> PsWf p -> PsWf (ps_set p id key v).
-Proof.
-  intros V P k c H. unfold ps_set in H. apply In_zset in H. destruct H as [[_ ->]|H]; [|eapply P; exact H].
-  apply ColWf_set; [exact V|]. destruct (zget p key) as [c0|] eqn:E; [|intros i x []]. eapply P. apply zget_In. exact E.
-Qed.
-Lemma PsWf_remove p id key : PsWf p -> PsWf (ps_remove p id key).
-Proof.
-  intros P. unfold ps_remove. destruct (zget p key) as [c0|] eqn:E; [|exact P].
-  intros k c H. apply In_zset in H. destruct H as [[_ ->]|H]; [|eapply P; exact H].
-  apply ColWf_remove. eapply P. apply zget_In. exact E.
-Qed.
-Lemma PsWf_remove_all p id : PsWf p -> PsWf (ps_remove_all p id).
-Proof.
-  intros P k c H. unfold ps_remove_all in H. apply in_map_iff in H. destruct H as ([k0 c0] & E & H).
-  cbn [fst snd] in E. injection E as _ <-. apply ColWf_remove. eapply P. exact H.
-Qed.
-
-Lemma WInv_delete_edge s e : WInv s -> WInv (fst (do_delete_edge s e)).
-Proof.
-  intros [N E]. unfold do_delete_edge. psimpl.
-  destruct (zget (edges s) e) as [r|]; [destruct (erec_vis r (epoch s))|]; psimpl; split; try assumption.
-  apply PsWf_remove_all. exact E.
-Qed.
-
-Lemma WInv_step s o : WInv s -> op_vals_wf o -> WInv (fst (step s o)).
-Proof.
-  intros Z V. pose proof Z as [N E]. destruct o; cbn [step]; cbn [op_vals_wf] in V.
-  - unfold do_create_node. destruct (create_node_labels (lab_names s) (lab_index s) [] (next_node s) labels) as [[a b] c].
-    psimpl. exact Z.
-  - unfold do_delete_node. psimpl. destruct (zget (nodes s) n) as [r|]; [|exact Z].
-    destruct (nrec_vis r (epoch s)); [|exact Z]. psimpl.
-    destruct (zget (node_labels s) n); psimpl; (split; [apply PsWf_remove_all; exact N|exact E]).
-  - unfold do_delete_node_edges. cbn [fst]. apply fold_left_inv; [|exact Z]. intros st a. apply WInv_delete_edge.
-  - unfold do_create_edge. psimpl. destruct (get_or_create (ety_names s) ty). psimpl. exact Z.
-  - apply WInv_delete_edge. exact Z.
-  - unfold do_set_node_prop. psimpl. split; [apply PsWf_set; assumption|exact E].
-  - unfold do_remove_node_prop. psimpl. split; [apply PsWf_remove; exact N|exact E].
-  - unfold do_set_edge_prop. psimpl. split; [exact N|apply PsWf_set; assumption].
-  - unfold do_remove_edge_prop. psimpl. split; [exact N|apply PsWf_remove; exact E].
-  - unfold do_add_label. destruct (node_live s n); [|exact Z]. destruct (get_or_create (lab_names s) l).
-    destruct (mem z (match zget (node_labels s) n with Some x => x | None => [] end)); psimpl; exact Z.
-  - unfold do_remove_label. destruct (node_live s n); [|exact Z]. destruct (find_pos l (lab_names s) 0); [|exact Z].
-    destruct (zget (node_labels s) n); [|exact Z]. destruct (mem z l0); psimpl; exact Z.
-  - unfold do_create_index. destruct (zget (pidx s) key); psimpl; exact Z.
-  - unfold do_drop_index. destruct (zget (pidx s) key); psimpl; exact Z.
-  - psimpl. exact Z.
-  - psimpl. exact Z.
-  - psimpl. exact Z.
-  - unfold do_refresh_stats. destruct (stats_dirty s); psimpl; exact Z.
-  - psimpl. exact Z.
-Qed.
-
-Lemma WInv_run b ops : hist_vals_wf ops -> WInv (run (init b) ops).
-Proof. intros H. apply (run_inv_wf WInv op_vals_wf); [exact WInv_step| |exact H]. split; intros k c []. Qed.
-
-Lemma zone_ne_sound_float z x q :
-  covers z x -> is_null x = false -> value_ieee_eqb x q = false -> is_float q = true ->
-  value_wf x -> value_wf q ->
-  (forall mn mx, z_min z = Some mn -> z_max z = Some mx -> ne_ok q [x; mn; mx]) ->
-  match z_min z, z_max z with
-  | Some mn, Some mx => negb (match cmp_zone mn q, cmp_zone mx q with Some Eq, Some Eq => true | _, _ => false end)
-  | _, _ => true
-  end = true.
-Proof.
-  intros C NN NE NF Wx Wq OK. unfold covers in C. rewrite NN in C. destruct C as (_ & (mn & Emn & Hmn) & (mx & Emx & Hmx)).
-  rewrite Emn, Emx. specialize (OK mn mx Emn Emx).
-  destruct (cmp_zone mn q) as [[]|] eqn:E1; try reflexivity. destruct (cmp_zone mx q) as [[]|] eqn:E2; try reflexivity.
-  exfalso.
-  assert (Ox : odd_for_ne q x = false) by (apply OK; cbn; auto).
-  assert (Tx : vtag x = vtag q) by (apply ne_ok_tag; [exact Ox|exact NN]).
-  assert (Tn : vtag mn = vtag q) by (apply ne_ok_tag; [apply OK; cbn; auto|eapply cmp_some_nonnull; exact E1]).
-  assert (Tm : vtag mx = vtag q) by (apply ne_ok_tag; [apply OK; cbn; auto|eapply cmp_some_nonnull; exact E2]).
-  destruct q as [| | |qb| | | | | |]; cbn [is_float] in NF; try discriminate NF.
-  destruct mn as [| | |nb| | | | | |]; cbn [vtag] in Tn; try discriminate Tn.
-  destruct mx as [| | |mb| | | | | |]; cbn [vtag] in Tm; try discriminate Tm.
-  destruct x as [| | |xb| | | | | |]; cbn [vtag] in Tx; try discriminate Tx.
-  cbn [cmp_zone value_ieee_eqb value_wf] in *. unfold f64_cmp in *.
-  (* x is not a NaN (outside K5), so it has an exact value *)
-  unfold odd_for_ne in Ox. cbn [is_null negb andb vtag] in Ox. rewrite Z.eqb_refl in Ox. cbn [negb orb] in Ox.
-  destruct (not_nan_some xb Ox) as [yx Yx].
-  destruct (f64_num nb) as [yn|] eqn:Yn; [|discriminate E1]. destruct (f64_num qb) as [yq|] eqn:Yq; [|discriminate E1].
-  destruct (f64_num mb) as [ym|] eqn:Ym; [|discriminate E2].
-  rewrite Yx in Hmn, Hmx. zcmp.
-  assert (LO : ~ yx < yn) by (intros L; apply Hmn; f_equal; exact L).
-  assert (HI : ~ ym < yx) by (intros L; apply Hmx; f_equal; apply Z.compare_gt_iff; exact L).
-  assert (EQ : yx = yq) by lia. subst yx.
-  rewrite (f64_eq_of_num xb qb yq Wx Wq Yx Yq) in NE. discriminate NE.
-Qed.
-
-Lemma col_might_match_pre_sound_full c o q n x :
-  ColInv c -> In (n, x) (c_vals c) -> sat o x q = true ->
-  k_zone_round_col c o q = false -> k_zone_ne_col c o q = false ->
-  (o = OpNe -> is_float q = true -> ColWf c /\ value_wf q) ->
-  col_might_match_pre c o q = true.
-Proof.
-  intros CI Hin S K4 K5 W.
-  destruct (is_float q) eqn:F; [|eapply col_might_match_pre_sound; try eassumption; intros _; exact F].
-  destruct o; try (eapply col_might_match_pre_sound; try eassumption; intros D; discriminate D).
-  (* OpNe with a Float64 query value *)
-  destruct (W eq_refl eq_refl) as [CW Wq]. destruct CI as [Wz C]. pose proof (C n x Hin) as Cx.
-  unfold col_might_match_pre. destruct (c_dirty c); [reflexivity|].
-  cbn [sat] in S. apply andb_true_iff in S. destruct S as [S1 S2]. apply negb_true_iff in S1, S2.
-  apply zone_ne_sound_float with (x := x); try assumption; [eapply CW; exact Hin|].
-  intros mn mx Emn Emx v Hv. cbn [k_zone_ne_col] in K5. apply (existsb_false_in _ _ K5).
-  destruct Hv as [<-|[<-|[<-|[]]]]; [eapply In_col_values_stored; exact Hin|apply In_col_values_min; exact Emn|apply In_col_values_max; exact Emx].
-Qed.
-
-Lemma might_match_pre_sound_full b ops (node : bool) key o q :
-  let s := run (init b) ops in
-  let p := if node then nprops s else eprops s in
-  (o = OpNe -> is_float q = true -> hist_vals_wf ops /\ value_wf q) ->
-  ps_zone_class p key o q = false ->
-  ps_might_match_pre p key o q = false -> forall n x, ps_get p n key = Some x -> sat o x q = false.
-Proof.
-  cbv zeta. intros W K M n x G. destruct (sat o x q) eqn:S; [|reflexivity]. exfalso.
-  destruct (ZInv_run b ops) as [PN PE].
-  set (p := if node then nprops (run (init b) ops) else eprops (run (init b) ops)) in *.
-  assert (P : PsInv p) by (unfold p; destruct node; assumption).
-  destruct (ps_get_covers p n key x P G) as (c & E & CI & Hin & _).
-  unfold ps_might_match_pre, ps_zone_class in *. rewrite E in *. apply orb_false_iff in K. destruct K as [K4 K5].
-  rewrite (col_might_match_pre_sound_full c o q n x CI Hin S K4 K5) in M; [discriminate M|].
-  intros Ho Fq. destruct (W Ho Fq) as [HW Wq]. split; [|exact Wq].
-  destruct (WInv_run b ops HW) as [WN WE]. assert (PW : PsWf p) by (unfold p; destruct node; assumption).
-  eapply PW. apply zget_In. exact E.
-Qed.
-
-Lemma cmpop_eq_ne o : o = OpNe \/ o <> OpNe.
-Proof. destruct o; try (right; discriminate); left; reflexivity. Qed.
-
-(** * the current code (fix 1879631): [<>] is never pruned, only K4 remains *)
-Lemma col_might_match_cur_pre c o q : o <> OpNe -> col_might_match c o q = col_might_match_pre c o q.
-Proof. intros H. unfold col_might_match, col_might_match_pre. destruct o; try reflexivity. exfalso. apply H. reflexivity. Qed.
-
-Lemma col_might_match_sound c o q n x :
-  ColInv c -> In (n, x) (c_vals c) -> sat o x q = true -> k_zone_round_col c o q = false ->
-  col_might_match c o q = true.
-Proof.
-  intros CI Hin S K4. destruct (cmpop_eq_ne o) as [->|NE].
-  - unfold col_might_match. destruct (c_dirty c); reflexivity.
-  - rewrite (col_might_match_cur_pre c o q NE). eapply col_might_match_pre_sound_full; try eassumption.
-    + destruct o; try reflexivity. exfalso. apply NE. reflexivity.
-    + intros E. exfalso. apply NE. exact E.
-Qed.
-
-Lemma might_match_sound_l b ops (node : bool) key o q :
-  let s := run (init b) ops in
-  let p := if node then nprops s else eprops s in
-  ps_round_class p key o q = false ->
-  ps_might_match p key o q = false -> forall n x, ps_get p n key = Some x -> sat o x q = false.
-Proof.
-  cbv zeta. intros K M n x G. destruct (sat o x q) eqn:S; [|reflexivity]. exfalso.
-  destruct (ZInv_run b ops) as [PN PE].
-  set (p := if node then nprops (run (init b) ops) else eprops (run (init b) ops)) in *.
-  assert (P : PsInv p) by (unfold p; destruct node; assumption).
-  destruct (ps_get_covers p n key x P G) as (c & E & CI & Hin & _).
-  unfold ps_might_match, ps_round_class in *. rewrite E in *.
-  rewrite (col_might_match_sound c o q n x CI Hin S K) in M. discriminate M.
-Qed.
+Proof. cbv zeta. apply find_in_range_sound. apply ZInv_run. Qed.
